@@ -22,7 +22,7 @@ chk.extra['rule'] = ('toy source/target force fields (1-3 residue types; one-to-
                      '>= 1 bond between placements, or an overlap / unmapped / spawned feature; distinct = distinct '
                      'protocol line')
 chk.lean(['VermouthProps.C01', 'VermouthProps.C01_Attr', 'VermouthProps.C01_ModAttr', 'VermouthProps.C01_Events',
-          'VermouthProps.C01_AttrLink'], 'driver_c01')
+          'VermouthProps.C01_AttrLink', 'VermouthProps.C01_Pred'], 'driver_c01')
 
 import networkx as nx
 import vermouth
@@ -30,6 +30,7 @@ import vermouth.forcefield
 import vermouth.map_parser
 from vermouth.molecule import Molecule, Block
 from vermouth.map_parser import Mapping
+from vermouth.molecule import Choice, NotDefinedOrNot
 from vermouth.processors.do_mapping import do_mapping
 
 chk.trusted.append('harness/c01.py: toy force-field/molecule builder, recorder of the raw matches (subclass of '
@@ -100,6 +101,20 @@ def wval(s):
     return int(f) if f.denominator == 1 else float(f)
 
 
+def unspec(attrs):
+    """JSON-able attribute dictionary of a spec -> the real one: {'__choice__': [...]} becomes a Choice,
+    {'__notdef__': v} a NotDefinedOrNot (the LinkPredicates map_parser / ffinput produce from `a|b`)"""
+    out = {}
+    for k, v in attrs.items():
+        if isinstance(v, dict) and '__choice__' in v:
+            out[k] = Choice(list(v['__choice__']))
+        elif isinstance(v, dict) and '__notdef__' in v:
+            out[k] = NotDefinedOrNot(v['__notdef__'])
+        else:
+            out[k] = v
+    return out
+
+
 def build(spec):
     ffa = vermouth.forcefield.ForceField(name='c01src')
     ffb = vermouth.forcefield.ForceField(name='c01tgt')
@@ -114,7 +129,7 @@ def build(spec):
         bf = Block(force_field=ffa)
         bf.name = ms['name']
         for k, attrs in ms['from_nodes']:
-            bf.add_node(k, **attrs)
+            bf.add_node(k, **unspec(attrs))
         for a, b in ms['from_edges']:
             bf.add_edge(a, b)
         bt = Block(force_field=ffa if ms.get('foreign_ff') else ffb)
@@ -263,15 +278,71 @@ def proto_matches(spec, m):
     return line('matches', mn, spec['edges'], pn, pe)
 
 
+def pv(v):
+    """a Python attribute value for the predicate matcher model: None or a type-tagged text"""
+    if v is None:
+        return None
+    if isinstance(v, str):
+        return 's' + v
+    if isinstance(v, bool):
+        return 'b%s' % v
+    if isinstance(v, int):
+        return 'i%d' % v
+    return 'r' + repr(v)
+
+
+def tval(v):
+    if isinstance(v, Choice):
+        return ['c', [pv(x) for x in v.value]]
+    if isinstance(v, NotDefinedOrNot):
+        return ['n', pv(v.value)]
+    return ['p', pv(v)]
+
+
+def has_predicate(bf):
+    return any(isinstance(v, vermouth.molecule.LinkPredicate) for _, a in bf.nodes(data=True) for v in a.values())
+
+
+def proto_matchesp(mol, m, block=True):
+    """molecule and block_from for the reference matcher that knows LinkPredicates (driver op `matchesp`);
+    `modifications` travel as lists of names"""
+    def mods(a):
+        return None if 'modifications' not in a else [x.name for x in a['modifications']]
+    fidx = {k: i for i, k in enumerate(m.block_from.nodes)}
+    mn = [[k, [[str(x), pv(v)] for x, v in a.items() if x != 'modifications'], a.get('resid'), mods(a)]
+          for k, a in mol.nodes(data=True)]
+    pn = [[fidx[k], [[str(x), tval(v)] for x, v in a.items() if x != 'modifications'], a.get('resid'), mods(a)]
+          for k, a in m.block_from.nodes(data=True)]
+    pe = [[fidx[a], fidx[b]] for a, b in m.block_from.edges]
+    return line('matchesp', bool(block), mn, [list(e) for e in mol.edges], pn, pe)
+
+
+def canon_matches(m, mts):
+    fidx = {k: j for j, k in enumerate(m.block_from.nodes)}
+    return sorted([x for a, f in sorted(((fidx[f], a) for a, f in mt)) for x in (a, f)] for mt in mts)
+
+
 # ----------------------------------------------------------------------------
 # independent brute-force matcher (oracle side)
 # ----------------------------------------------------------------------------
 IGNORE = {'atype', 'charge', 'charge_group', 'mass', 'resid', 'replace', '_old_atomname'}
 
 
-def brute_matches(mol, bf):
-    """all induced embeddings of block_from `bf` into `mol` with equal atomname/other attributes and
-    agreeing same-residue-ness on every bond: list of {from node: atom}"""
+def value_fits(present, value, want):
+    """does an atom whose attribute is `value` (`present`: the key exists) satisfy the template value `want`:
+    equal, or - `want` a Choice - one of the listed values, or - a NotDefinedOrNot - absent or different"""
+    if isinstance(want, Choice):
+        return value in want.value
+    if isinstance(want, NotDefinedOrNot):
+        return (not present) or value != want.value
+    return value == want
+
+
+def brute_matches(mol, bf, mode='block'):
+    """all induced embeddings of block_from `bf` into `mol` with fitting atomname/other attributes (plain values
+    equal, LinkPredicates satisfied) and - block mappings - agreeing same-residue-ness on every bond; mode 'mod':
+    the rule for modification mappings (no residue condition; empty resname / false PTM_atom of the template do
+    not count; every modification the template names is among the atom's): list of {from node: atom}"""
     pnodes = list(bf.nodes)
     # order the pattern so that a node follows a neighbour when possible
     order, seen = [], set()
@@ -289,12 +360,18 @@ def brute_matches(mol, bf):
         for k, v in pa.items():
             if k in IGNORE:
                 continue
+            if mode == 'mod' and k in ('resname', 'PTM_atom') and not v:
+                continue
+            if mode == 'mod' and k == 'modifications':
+                if 'modifications' not in ta or not all(any(x is y or x == y for y in ta['modifications']) for x in v):
+                    return False
+                continue
             if k == 'atomname':
-                if ta.get('_old_atomname', ta.get('atomname')) != pa.get('_old_atomname', v):
+                if not value_fits(True, ta.get('_old_atomname', ta.get('atomname')), pa.get('_old_atomname', v)):
                     return False
             elif k == 'order' and 'order' not in ta:
                 continue
-            elif ta.get(k) != v:
+            elif not value_fits(k in ta, ta.get(k), v):
                 return False
         return True
 
@@ -315,8 +392,8 @@ def brute_matches(mol, bf):
                 if pe != te:
                     ok = False
                     break
-                if pe and ((bf.nodes[p].get('resid') == bf.nodes[q].get('resid'))
-                           != (mol.nodes[t].get('resid') == mol.nodes[s].get('resid'))):
+                if mode == 'block' and pe and ((bf.nodes[p].get('resid') == bf.nodes[q].get('resid'))
+                                               != (mol.nodes[t].get('resid') == mol.nodes[s].get('resid'))):
                     ok = False
                     break
             if ok:
@@ -472,6 +549,7 @@ def check_copies(spec, mol, mlist, out, outkeys, places, groups):
     return errs, order
 
 
+MOD_OVERLAY = []         # [(modification mapping, {from node: atom})]: the modification matches of the case (xmod stream)
 ORACLE_SKIP = set()      # clauses that do not apply under the attribute tuples of the case (attribute stream only)
 
 
@@ -510,6 +588,17 @@ def _check_copy(mol, mlist, out, outkeys, places, j, pos, last_resid, n):
                 want_w[emb[f]] = Fraction(ws[b])
         if not any(b in ws for ws in m.mapping.values()):
             want_w = {x: Fraction(0) for x in emb.values()}
+        # modification mappings laid over this particle: a node of the modification that is not a new particle
+        # lands on the particle of that atom name one of its atoms already contributes to; its weights are added,
+        # replacing the block mapping's for the same atom
+        for mm, memb in MOD_OVERLAY:
+            before = set(want_w)
+            for b2, a2 in mm.block_to.nodes(data=True):
+                if a2.get('PTM_atom') or a2.get('atomname') != bt.nodes[b].get('atomname'):
+                    continue
+                mine = {memb[f]: Fraction(ws[b2]) for f, ws in mm.mapping.items() if f in memb and b2 in ws}
+                if any(x in before for x in mine):
+                    want_w.update(mine)
         got_w = {x: Fraction(w) for x, w in a.get('mapping_weights', {}).items()}
         if got_w != want_w:
             errs.append(('weights_exact', 'particle %r records weights %r, the mapping assigns %r'
@@ -1655,6 +1744,517 @@ for i in range(3000 if chk.thorough else 250):
 mx_models = chk.drv.ask(mx_lines) if chk.lean_ok else [None] * len(mx_lines)
 for (cid, impl, errs, nm), ln, mo in zip(mx_recs, mx_lines, mx_models):
     chk.case(cid, ln, impl, mo, ['%s: %s' % e for e in errs], nm >= 1)
+
+# ----------------------------------------------------------------------------
+# FOLLOW-UP streams
+#  (1) predicate-valued attributes (Choice, NotDefinedOrNot - what map_parser / ffinput build from `a|b`) in the
+#      block_from nodes of block mappings: real matcher vs the Lean reference matcher that knows predicates
+#      (`matchesp`, VermouthModel/C01_Pred.lean) and vs the brute-force matcher; full oracle; plus mappings read
+#      from `.mapping` TEXT with `|` choices by the real parser
+#  (2) modification mappings whose anchors lie in two different block placements (cross-links), with predicates
+#      in the modification's block_from; (3) blocks with 2-3 particles nothing maps to plus a modification mapping
+#      that puts atoms on ONE of them.  Oracle: block copies with the weights of the DEFINITIONS (block mapping,
+#      then the modification mappings laid over it), particles of different block placements bonded iff some
+#      constituents are bonded - whatever modification matches cover them -, no two particles share a weight table
+# ----------------------------------------------------------------------------
+def choice(*vals):
+    return {'__choice__': list(vals)}
+
+
+def notdef(val):
+    return {'__notdef__': val}
+
+
+def gen_pred_case(rng):
+    feat = dict(FEAT, p_dup=0.05, p_two=0.25, p_selfloop=0.0, p_both_empty=0.0)
+    spec, meta = gen_case(rng, 6, feat)
+    tags = set()
+    pool = ['RA', 'RB', 'RC', 'UNK']
+    # residues of the molecule, in atom order
+    residues = {}
+    for k, a in spec['atoms']:
+        residues.setdefault((a['chain'], a['resid']), []).append(a)
+    for k, a in spec['atoms']:
+        if rng.random() < 0.25:
+            a['mark'] = rng.choice(['x', 'y'])
+        if a.get('element') != 'H' and rng.random() < 0.1:
+            del a['element']
+            tags.add('atom_without_element')
+    renames = []
+    for ms in spec['mappings']:
+        by_res = {}
+        for n, a in ms['from_nodes']:
+            by_res.setdefault(a.get('resid'), []).append(a)
+        for rid, nodes in by_res.items():
+            own = nodes[0].get('resname')
+            if own is None:
+                continue
+            r = rng.random()
+            if r < 0.5:
+                others = rng.sample([x for x in pool if x != own], rng.randint(1, 2))
+                vals = [own] + others
+                rng.shuffle(vals)
+                if rng.random() < 0.15:
+                    vals = others                            # the own residue name is NOT among the choices
+                    tags.add('resname_choice_without_own')
+                for a in nodes:
+                    a['resname'] = choice(*vals)
+                tags.add('resname_choice')
+                renames.append((own, vals))
+            elif r < 0.65:
+                val = rng.choice([x for x in pool if x != own] + [own])
+                for a in nodes:
+                    a['resname'] = notdef(val)
+                tags.add('resname_notdef')
+                renames.append((own, [x for x in pool if x != val]))
+        r = rng.random()
+        if r < 0.2 and len(ms['from_nodes']) >= 2:
+            # one node accepts two atom names
+            (n1, a1), (n2, a2) = rng.sample(ms['from_nodes'], 2)
+            if isinstance(a1['atomname'], str) and isinstance(a2['atomname'], str):
+                a1['atomname'] = choice(a1['atomname'], a2['atomname']) if rng.random() < 0.7 else notdef(a2['atomname'])
+                tags.add('atomname_predicate')
+        for n, a in ms['from_nodes']:
+            r = rng.random()
+            if r < 0.08:
+                a['chain'] = rng.choice([choice('A'), choice('A', 'B'), choice('B', 'C'), notdef('B'), notdef('Z')])
+                tags.add('chain_predicate')
+            elif r < 0.16:
+                a['element'] = rng.choice([choice('C', 'N'), notdef('H'), choice('C', 'H'), notdef('C')])
+                tags.add('element_predicate')
+            elif r < 0.24:
+                a['mark'] = rng.choice([notdef('x'), choice('x', 'y'), choice('x'), notdef('q')])
+                tags.add('mark_predicate')
+    # residues take another of the residue names their mapping accepts ("ASP|GLU": one mapping, two residue types)
+    for key, atoms_ in residues.items():
+        cands = [vals for own, vals in renames if own == atoms_[0]['resname']]
+        if cands and rng.random() < 0.5:
+            new = rng.choice(rng.choice(cands) + ['ZZ'] * (rng.random() < 0.1))
+            for a in atoms_:
+                a['resname'] = new
+            tags.add('residue_renamed_within_choice')
+    return spec, meta, tags
+
+
+# -- `.mapping` text --------------------------------------------------------------------------------------------
+TEXT_TYPES = {'ASP': ['CA', 'CB', 'OD'], 'GLU': ['CA', 'CB', 'OD'], 'ASN': ['CA', 'CB', 'ND'], 'GLY': ['CA'],
+              'SER': ['CA', 'OG'], 'THR': ['CA', 'OG']}
+
+
+def gen_text_case(rng):
+    """mapping text with `|` choices for the real parser + a molecule; -> (text, mol, mappings, ffb, tags)"""
+    from vermouth.map_input import read_mapping_file
+    ffa = vermouth.forcefield.ForceField(name='c01src')
+    ffb = vermouth.forcefield.ForceField(name='c01tgt')
+    tags = set()
+    groups = [g for g in (['ASP', 'GLU'], ['SER', 'THR'], ['ASN'], ['GLY']) if rng.random() < 0.75] or [['ASP', 'GLU']]
+    text = []
+    fetch = True      # a to-block built from [ to nodes ] has no force field: merge_molecule refuses it (ValueError)
+    for gi, group in enumerate(groups):
+        names = TEXT_TYPES[group[0]]
+        ident = 'G%d' % gi
+        tname = 'T%d' % gi
+        beads = ['BB'] + (['SC1'] if len(names) > 1 else [])
+        if fetch:
+            blk = Block(force_field=ffb, name=tname, nrexcl=1)
+            for b in beads:
+                blk.add_node(b, atomname=b, resname=tname, resid=1)
+            if len(beads) == 2:
+                blk.add_edge('BB', 'SC1')
+                blk.add_interaction('bonds', ['BB', 'SC1'], ['1', '0.3', '5000'])
+            ffb.blocks[tname] = blk
+        resn = '|'.join(group)
+        extra = rng.random() < 0.3 and len(group) == 1
+        if extra:
+            resn = resn + '|' + rng.choice(['ASP', 'XXX'])
+        if '|' in resn:
+            tags.add('resname_choice_in_text')
+        text += ['[ block ]', '[ from ]', 'c01src', '[ to ]', 'c01tgt', '[ from blocks ]',
+                 '!%s {"resname": "%s", "resid": 1}' % (ident, resn), '[ to blocks ]']
+        if fetch:
+            text.append(tname)
+        else:
+            text += ['!%s {"resname": "%s", "resid": 1}' % (tname, tname), '[ to nodes ]'] + ['%s:%s' % (tname, b) for b in beads]
+            if len(beads) == 2:
+                text += ['[ to edges ]', 'BB SC1']
+        text.append('[ from nodes ]')
+        for i, n in enumerate(names):
+            attr = ''
+            if rng.random() < 0.2:
+                attr = ' {"element": "%s"}' % rng.choice(['C|N|O', 'C|O', 'N|O'])
+                tags.add('element_choice_in_text')
+            text.append(('%s:%s' % (ident, n) if i == 0 else n) + attr)
+        if len(names) > 1:
+            text.append('[ from edges ]')
+            text += ['%s %s' % (a, b) for a, b in zip(names, names[1:])]
+        text.append('[ mapping ]')
+        for i, n in enumerate(names):
+            b = 'BB' if i == 0 else 'SC1'
+            w = rng.choice(['', '', ' 2', ' 0', ' 3'])
+            text.append('%s %s%s' % (n, b, w))
+            if i == 1 and rng.random() < 0.4:
+                text.append('%s BB' % n)
+        text.append('')
+    mappings = read_mapping_file(text, {'c01src': ffa, 'c01tgt': ffb})
+    mol = Molecule(force_field=ffa)
+    nres = rng.randint(1, 6)
+    seq = [rng.choice(list(TEXT_TYPES)) for _ in range(nres)]
+    key, prev = rng.choice([0, 1, 10]), None
+    start = rng.choice([1, 4, 20])
+    for r, rn in enumerate(seq):
+        names = TEXT_TYPES[rn]
+        local = {}
+        for n in names:
+            mol.add_node(key, resid=start + r, resname=rn, atomname=n, chain='A', element=n[0])
+            local[n] = key
+            key += rng.choice([1, 1, 2])
+        for a, b in zip(names, names[1:]):
+            mol.add_edge(local[a], local[b])
+        if prev is not None:
+            mol.add_edge(prev, local['CA'])
+        prev = local['CA']
+    return '\n'.join(text), mol, mappings, ffb, tags, seq
+
+
+# -- cross-link modifications and modifications on spawned particles ----------------------------------------------
+XTYPES = {'CYS': ['CA', 'SG'], 'LYS': ['CA', 'CB', 'NZ'], 'GLY': ['CA'], 'ASP': ['CA', 'CB', 'OD'], 'MET': ['CA', 'SD']}
+XWEIGHTS = ['1', '1', '1', '2', '1/2', '3', '0']
+
+
+def build_xmod_case(rng):
+    """residues CA[-side chain] -> BB [SC1] [D1..D3: particles nothing maps to]; modifications: XL = a cross-link
+    between the side-chain ends of two residues (direct bond, or through a bridging PTM atom), its mapping lays a
+    node over the SC1 of either residue; DUM = an extra atom on CA whose mapping puts it on ONE of the D particles.
+    -> mol, mappings, to_ff, meta (as build_mod_case)"""
+    ffa = vermouth.forcefield.ForceField(name='c01src')
+    ffb = vermouth.forcefield.ForceField(name='c01tgt')
+    tnames = rng.sample(sorted(XTYPES), rng.randint(2, 4))
+    if not any(len(XTYPES[t]) > 1 for t in tnames):
+        tnames[0] = 'LYS'
+    want_dum = rng.random() < 0.6
+    mappings = {}
+    ndum = {}
+    for t in tnames:
+        names = XTYPES[t]
+        ba = Block(force_field=ffa)
+        ba.name = t
+        rn, more = t, {}
+        if rng.random() < 0.3:
+            if rng.random() < 0.7:
+                rn = Choice([t, 'X' + t])
+            else:
+                more = {'chain': NotDefinedOrNot('Q')}
+        for n in names:
+            ba.add_node(n, resid=1, resname=rn, atomname=n, **more)
+        ba.add_edges_from(zip(names, names[1:]))
+        bb = Block(force_field=ffb)
+        bb.name = t
+        beads = ['BB'] + (['SC1'] if len(names) > 1 else [])
+        nd = rng.choice([2, 2, 3, 1, 0]) if want_dum else rng.choice([0, 0, 0, 1, 2])
+        ndum[t] = nd
+        order = list(beads)
+        for d in range(nd):
+            order.insert(rng.randrange(len(order) + 1), 'D%d' % (d + 1))
+        for b in order:
+            bb.add_node(b, resid=1, resname=t, atomname=b, atype='P1')
+        if len(beads) == 2:
+            bb.add_edge('BB', 'SC1')
+            bb.add_interaction('bonds', ['BB', 'SC1'], ['1', '0.3', '5000'])
+        for d in range(nd):
+            if rng.random() < 0.8:
+                bb.add_edge(rng.choice(beads), 'D%d' % (d + 1))
+        bmap = {'CA': {'BB': wval(rng.choice(XWEIGHTS))}}
+        for n in names[1:]:
+            bmap[n] = {'SC1': wval(rng.choice(XWEIGHTS))}
+        if len(names) == 3 and rng.random() < 0.4:
+            bmap['CB']['BB'] = wval(rng.choice(XWEIGHTS))          # shared atom
+        mappings[t] = Mapping(ba, bb, mapping=bmap, references={}, ff_from=ffa, ff_to=ffb, names=(t,))
+    nres = rng.randint(2, 6)
+    seq = [rng.choice(tnames) for _ in range(nres)]
+    mol = Molecule(force_field=ffa)
+    stride = rng.choice([10, 10, 6])
+    start = rng.choice([1, 1, 5])
+    res_locals, prev = [], None
+    for r, t in enumerate(seq):
+        local = {}
+        for q, n in enumerate(XTYPES[t]):
+            k = stride * r + q
+            local[n] = k
+            mol.add_node(k, resid=start + r, resname=t, atomname=n, chain='A', element=n[0])
+        for a, b in zip(XTYPES[t], XTYPES[t][1:]):
+            mol.add_edge(local[a], local[b])
+        if prev is not None:
+            mol.add_edge(prev, local['CA'])
+        prev = local['CA']
+        res_locals.append(local)
+    extra = [stride * nres]
+    interleaved = rng.random() < 0.6
+
+    def ptm_key(r, slot):
+        if interleaved:
+            return stride * r + 3 + slot
+        extra[0] += 1
+        return extra[0] - 1
+    meta = {'nres': nres, 'xl': 0, 'dum': 0, 'bridge': False, 'tgt_edge': False, 'ndum': 0}
+    # ---- the cross-link -------------------------------------------------------------------------------------
+    sided = [r for r, t in enumerate(seq) if len(XTYPES[t]) > 1]
+    pairs = [(i, j) for i in sided for j in sided if i < j and XTYPES[seq[i]][-1] != XTYPES[seq[j]][-1]]
+    if pairs and rng.random() < 0.75:
+        i, j = rng.choice(pairs)
+        if rng.random() < 0.3:
+            i, j = j, i                                    # the template's first anchor sits in the LATER residue
+        n1, n2 = XTYPES[seq[i]][-1], XTYPES[seq[j]][-1]
+        bridge = rng.random() < 0.4
+        dangling = (not bridge) and rng.random() < 0.3
+        src = Link(force_field=ffa, name='XL')
+        rn = rng.choice([None, None, Choice([seq[i], seq[j], 'ZZ']), NotDefinedOrNot('ZZ')])
+        an1 = Choice([n1, 'Q' + n1]) if rng.random() < 0.25 else n1
+        for key_, nm in (('S', an1), ('N', n2)):
+            attrs = {'atomname': nm, 'PTM_atom': False, 'modifications': [src]}
+            if rn is not None:
+                attrs['resname'] = rn
+            src.add_node(key_, **attrs)
+        if bridge:
+            src.add_node('X', atomname='XB', PTM_atom=True, modifications=[src])
+            src.add_edges_from([('S', 'X'), ('X', 'N')])
+        else:
+            src.add_edge('S', 'N')
+            if dangling:
+                src.add_node('X', atomname='XH', PTM_atom=True, modifications=[src])
+                src.add_edge('S', 'X')
+        tgt = Link(force_field=ffb, name='XL')
+        tgt.add_node('A', atomname='SC1', PTM_atom=False, replace={'atype': 'C5'})
+        tgt.add_node('B', atomname='SC1', PTM_atom=False, replace={'atype': 'N3'})
+        if rng.random() < 0.25:
+            tgt.add_edge('A', 'B')
+            meta['tgt_edge'] = True
+        mp = {'S': {'A': wval(rng.choice(XWEIGHTS))}, 'N': {'B': wval(rng.choice(XWEIGHTS))}}
+        if bridge or dangling:
+            side = rng.choice(['A', 'A', 'B', 'AB']) if bridge else 'A'
+            mp['X'] = {x: wval(rng.choice(XWEIGHTS[:-1])) for x in side}
+        mappings[('XL',)] = Mapping(src, tgt, mapping=mp, references={}, ff_from=ffa, ff_to=ffb, names=('XL',),
+                                    type='modification')
+        a1, a2 = res_locals[i][n1], res_locals[j][n2]
+        for a in (a1, a2):
+            mol.nodes[a]['modifications'] = mol.nodes[a].get('modifications', []) + [src]
+        if bridge or dangling:
+            k = ptm_key(i, 0)
+            mol.add_node(k, resid=start + i, resname=seq[i], atomname='XB' if bridge else 'XH', chain='A',
+                         element='H' if (dangling and rng.random() < 0.5) else 'S', PTM_atom=True, modifications=[src])
+            mol.add_edge(a1, k)
+            if bridge:
+                mol.add_edge(k, a2)
+        if not bridge:
+            mol.add_edge(a1, a2)
+        meta.update(xl=1, bridge=bridge)
+        # a decoy: the same two kinds of side-chain ends bonded elsewhere WITHOUT the modification - the
+        # modification mapping must not fit there (its nodes name the modification)
+        decoys = [(p, q) for p, q in pairs + [(q, p) for p, q in pairs]
+                  if not {p, q} & {i, j} and (XTYPES[seq[p]][-1], XTYPES[seq[q]][-1]) == (n1, n2)]
+        if decoys and not bridge and rng.random() < 0.6:
+            p, q = rng.choice(decoys)
+            mol.add_edge(res_locals[p][n1], res_locals[q][n2])
+            for a in (res_locals[p][n1], res_locals[q][n2]):
+                if rng.random() < 0.7:
+                    mol.nodes[a]['modifications'] = []       # the attribute is there, the modification is not
+            meta['decoy'] = True
+    # ---- an atom put on ONE of the particles nothing maps to ----------------------------------------------------
+    hosts = [r for r, t in enumerate(seq) if ndum[t] >= 1]
+    if hosts and rng.random() < 0.8:
+        kd = rng.randint(1, min(ndum[seq[r]] for r in hosts)) if rng.random() < 0.7 else 1
+        hosts = [r for r in hosts if ndum[seq[r]] >= kd]
+        src = Link(force_field=ffa, name='DUM')
+        src.add_node('CA', atomname='CA', PTM_atom=False)
+        src.add_node('HX', atomname='HX', PTM_atom=True, modifications=[src])
+        src.add_edge('CA', 'HX')
+        tgt = Link(force_field=ffb, name='DUM')
+        tgt.add_node('D', atomname='D%d' % kd, PTM_atom=False, replace={'atype': 'D9'})
+        mp = {'CA': {'D': wval(rng.choice(['0', '0', '1', '1/2']))}, 'HX': {'D': wval(rng.choice(['1', '1', '2', '1/2']))}}
+        if rng.random() < 0.25:
+            tgt.add_node('H', atomname='BB', PTM_atom=False)
+            mp['HX']['H'] = wval(rng.choice(['1', '1/4']))
+            mp['CA']['H'] = wval(rng.choice(['1', '2']))          # the particle is found through an atom it already has
+        mappings[('DUM',)] = Mapping(src, tgt, mapping=mp, references={}, ff_from=ffa, ff_to=ffb, names=('DUM',),
+                                     type='modification')
+        for r in rng.sample(hosts, min(len(hosts), rng.choice([1, 1, 2]))):
+            ca = res_locals[r]['CA']
+            mol.nodes[ca]['modifications'] = mol.nodes[ca].get('modifications', []) + [src]
+            k = ptm_key(r, 1)
+            mol.add_node(k, resid=start + r, resname=seq[r], atomname='HX', chain='A',
+                         element=rng.choice(['P', 'P', 'H']), PTM_atom=True, modifications=[src])
+            mol.add_edge(ca, k)
+            meta['dum'] += 1
+            meta['ndum'] = max(meta['ndum'], ndum[seq[r]])
+    meta['mods'] = meta['xl'] + meta['dum']
+    return mol, {'c01src': {'c01tgt': mappings}}, ffb, meta
+
+
+def xmod_oracle(mol, blocks, mods, out, logs, rawb, rawm, called):
+    errs = []
+    # the modification matches are every place where the needed modification mappings fit, each once
+    for i, m in enumerate(mods):
+        real = sorted(tuple(sorted((f, a) for a, f in mt)) for j, mt in rawm if j == i)
+        if tuple(m.names) in [tuple(c) for c in called]:
+            want = sorted(tuple(sorted(emb.items())) for emb in brute_matches(mol, m.block_from, mode='mod'))
+            if real != want:
+                errs.append(('mod_matches', 'modification mapping %s: the matcher found %r, it fits at %r'
+                             % (m.names, real, want)))
+    if errs:
+        return errs, {}
+    MOD_OVERLAY[:] = [(mods[i], {f: a for a, f in mt}) for i, mt in rawm]
+    try:
+        errs, info = oracle({}, mol, blocks, out, logs, rawb)
+    finally:
+        MOD_OVERLAY[:] = []
+    tables = [out.nodes[k]['mapping_weights'] for k in out.nodes if 'mapping_weights' in out.nodes[k]]
+    if len({id(t) for t in tables}) != len(tables):
+        shared = [k for k in out.nodes if sum(1 for q in out.nodes
+                                              if out.nodes[q].get('mapping_weights') is out.nodes[k].get('mapping_weights')) > 1]
+        errs.append(('weights_exact', 'particles %r share ONE weight table object: what a mapping assigns to one of '
+                     'them shows up in the others' % shared[:4]))
+    # `replace` of a laid-over node, and the modification recorded on the particle
+    bead_of, order, places = info.get('bead_of', {}), info.get('order', []), info.get('places', [])
+    for i, mt in rawm:
+        m = mods[i]
+        memb = {f: a for a, f in mt}
+        for b2, a2 in m.block_to.nodes(data=True):
+            atoms = {memb[f] for f, ws in m.mapping.items() if f in memb and b2 in ws}
+            hit = [k for k in out.nodes if out.nodes[k].get('atomname') == a2.get('atomname')
+                   and any(m.block_to is x for x in out.nodes[k].get('modifications', []) or [])
+                   and atoms <= set(out.nodes[k].get('mapping_weights', {}))]
+            if len(hit) != 1:
+                errs.append(('modifications_recorded', 'node %r of modification mapping %s: %d particles %s carry '
+                             'the modification and its atoms %r' % (b2, m.names, len(hit), a2.get('atomname'), sorted(atoms))))
+            elif any(out.nodes[hit[0]].get(x) != v for x, v in a2.get('replace', {}).items()):
+                errs.append(('replace_applied', 'particle %r: replace %r of the modification not applied'
+                             % (hit[0], a2.get('replace'))))
+    return errs, info
+
+
+def matcher_lines(cid, mol, mlist, raw, block=True):
+    """the real matches of every mapping against the Lean reference matcher with predicates (and, for templates
+    without predicate in a block mapping, also against the plain one)"""
+    res = []
+    for i, m in enumerate(mlist):
+        if len(m.block_from) == 0:
+            continue
+        real = canon_matches(m, [mt for mi, mt in raw if mi == i])
+        res.append((cid + '-p%d' % i, proto_matchesp(mol, m, block), enc(real), len(real), has_predicate(m.block_from)))
+    return res
+
+
+prng = chk.rng('predicates')
+px_lines, px_recs, pm_lines = [], [], []
+for i in range(2500 if chk.thorough else 170):
+    spec, meta, tags = gen_pred_case(prng)
+    status, out, raw, logs, mol, mlist = run_real(spec)
+    ln = proto_map(spec, mlist, raw)
+    impl = canon_real(status, out, logs)
+    errs, info = ([], {})
+    if status == 'ok':
+        errs, info = oracle(spec, mol, mlist, out, logs, raw)
+    elif status.startswith('exception'):
+        errs = [('no_crash', 'do_mapping raised ' + status)]
+    if len(spec['atoms']) <= 40:
+        pm_lines += matcher_lines('pred-%d' % i, mol, mlist, raw)
+        for j, m in enumerate(mlist):
+            if len(m.block_from) and not has_predicate(m.block_from) and all('mark' not in a and 'element' in a for _, a in spec['atoms']):
+                pm_lines.append(('pred-%d-plain%d' % (i, j), proto_matches(spec, m),
+                                 enc(canon_matches(m, [mt for mi, mt in raw if mi == j])), 1, False))
+    for t in tags:
+        chk.count('pred_feature_' + t)
+    chk.count('pred_status=' + status)
+    npl = info.get('placements', 0)
+    chk.count('pred_placements', npl)
+    px_lines.append(None if len(raw) > 45 else ln)
+    px_recs.append(('pred-%d' % i, ln, impl, errs, status == 'ok' and bool(tags) and npl >= 1))
+
+trng = chk.rng('mapping-text')
+for i in range(400 if chk.thorough else 45):
+    text, mol, mappings, ffb, tags, seq = gen_text_case(trng)
+    status, out, rawb, rawm, logs, blocks, mods, called = run_with_mods(mol, mappings, ffb)
+    maps_enc, raw_enc = enc_block_maps(blocks, rawb)
+    ln = line('map', enc_atoms(mol), [list(e) for e in mol.edges], maps_enc, raw_enc)
+    impl = canon_real(status, out, logs)
+    errs, info = ([], {})
+    if status == 'ok':
+        errs, info = oracle({}, mol, blocks, out, logs, rawb)
+        # what the text says, independently of the parsed objects: a residue whose name is among the `|` choices
+        # of a from-block gets that block's particles
+        tl = text.split('\n')
+        # (element choices may exclude an atom: those cases are left to the general oracle)
+        if not any('"element"' in l for l in tl):
+            # a residue fits a from-block when its name is among the `|` choices and it has the block's atoms
+            # (the blocks are chains CA[-x[-y]]: the atoms of the block then induce the same bonds in the residue)
+            want_n = 0
+            for rn in seq:
+                for l in tl:
+                    if l.startswith('!G') and '"resname"' in l:
+                        names = l.split('"resname": "')[1].split('"')[0].split('|')
+                        if rn in names and set(TEXT_TYPES[names[0]]) <= set(TEXT_TYPES[rn]):
+                            want_n += 2 if len(TEXT_TYPES[names[0]]) > 1 else 1
+            if want_n != len(out):
+                errs.append(('assemble_nodes', 'the mapping text accepts the residues %r with %d particles in total, the '
+                             'output has %d' % (seq, want_n, len(out))))
+    elif status.startswith('exception'):
+        errs = [('no_crash', 'do_mapping raised ' + status)]
+    pm_lines += matcher_lines('text-%d' % i, mol, blocks, rawb)
+    for t in tags:
+        chk.count('text_feature_' + t)
+    chk.count('text_status=' + status)
+    chk.count('text_placements', info.get('placements', 0))
+    px_lines.append(ln)
+    px_recs.append(('text-%d' % i, ln, impl, errs, status == 'ok' and info.get('placements', 0) >= 2))
+
+asked = [l for l in px_lines if l is not None]
+answers = iter(chk.drv.ask(asked) if chk.lean_ok else [None] * len(asked))
+for (cid, ln, impl, errs, nontriv), sent in zip(px_recs, px_lines):
+    mo = None if sent is None else next(answers)
+    chk.case(cid, ln, impl, mo, ['%s: %s' % e for e in errs], nontriv)
+
+xmrng = chk.rng('xmod')
+xm_lines, xm_recs = [], []
+for i in range(3000 if chk.thorough else 260):
+    mol, mappings, ffb, meta = build_xmod_case(xmrng)
+    status, out, rawb, rawm, logs, blocks, mods, called = run_with_mods(mol, mappings, ffb)
+    logargs = list(LOGARGS)
+    cfg = (KEEP, MUST, STASH)
+    ln = proto_mapx(cfg, mol, blocks, rawb, mods, rawm, ffb)
+    impl = canon_x(status, out, logs, logargs, mods)
+    errs, info = [], {}
+    if status == 'ok':
+        impl += canon_x_tail(out, sum(len(blocks[j].block_to) for j, _ in rawb))
+        errs, info = xmod_oracle(mol, blocks, mods, out, logs, rawb, rawm, called)
+    else:
+        errs = [('no_crash', 'do_mapping raised %s on a molecule whose modifications all fit their mappings' % status)]
+    pm_lines += matcher_lines('xmod-%d-b' % i, mol, blocks, rawb)
+    pm_lines += [x for x in matcher_lines('xmod-%d-m' % i, mol, mods, rawm, block=False)
+                 if tuple(mods[int(x[0].rsplit('-p', 1)[1])].names) in [tuple(c) for c in called]]
+    chk.count('xmod_status=' + status)
+    chk.count('xmod_crosslink_matches', sum(1 for j, _ in rawm if mods[j].names == ('XL',)))
+    chk.count('xmod_dummy_matches', sum(1 for j, _ in rawm if mods[j].names == ('DUM',)))
+    if meta['xl']:
+        chk.count('xmod_crosslink_' + ('bridged' if meta['bridge'] else 'direct')
+                  + ('_edge_in_modification' if meta['tgt_edge'] else ''))
+    if meta.get('decoy'):
+        chk.count('xmod_crosslink_without_modification_elsewhere')
+    if meta['dum'] and meta['ndum'] >= 2:
+        chk.count('xmod_modification_on_one_of_several_spawned_particles')
+    if any(has_predicate(m.block_from) for m in mods):
+        chk.count('xmod_predicate_in_modification_block_from')
+    if any(has_predicate(m.block_from) for m in blocks):
+        chk.count('xmod_predicate_in_block_from')
+    chk.count('xmod_inter_bonds', info.get('inter_bonds', 0))
+    xm_lines.append(ln)
+    xm_recs.append(('xmod-%d' % i, impl, errs, len(rawm)))
+xm_models = chk.drv.ask(xm_lines) if chk.lean_ok else [None] * len(xm_lines)
+for (cid, impl, errs, nm), ln, mo in zip(xm_recs, xm_lines, xm_models):
+    chk.case(cid, ln, impl, mo, ['%s: %s' % e for e in errs], nm >= 1)
+
+pmodels = chk.drv.ask([l for _, l, _, _, _ in pm_lines]) if chk.lean_ok else [None] * len(pm_lines)
+for (cid, ln, real, n, pred), mo in zip(pm_lines, pmodels):
+    chk.count('matches_compared_predicate_matcher' + ('_with_predicates' if pred else ''))
+    chk.case(cid, ln, real, mo, [], n >= 1 and pred)
 
 # ----------------------------------------------------------------------------
 # thorough: charmm -> martini3001 on the tier-0 / tier-1 test structures (oracle only)
